@@ -110,6 +110,13 @@ impl BytesMut {
             at,
             self.len(),
         );
+        if self.off == 0 && at == self.v.len() {
+            // Splitting off everything: hand over the buffer itself instead of copying it.  Same
+            // observable result; it keeps already-written constant bytes (packet type, length
+            // prefixes) visible to CBMC's constant propagation, which a memcpy would hide.
+            let v = core::mem::take(&mut self.v);
+            return BytesMut { v, off: 0 };
+        }
         let head = self.v[self.off..self.off + at].to_vec();
         self.off += at;
         BytesMut { v: head, off: 0 }
